@@ -454,10 +454,15 @@ func C12GenField(t *rapid.T, fid string, wallet []C12Cred, target int, friendly 
 	if fmtOf == "jwt_vc" {
 		other = "ldp_vc"
 	}
+	// the filter is drawn before the paths: the multi-path mode constructs per-path outcomes against it
+	var flt map[string]any
+	if rapid.IntRange(0, 4).Draw(t, "filter?") > 0 {
+		flt = C12FilterFor(t, leaf.val, friendly)
+	}
 	var paths []any
-	pathModes := []string{"one", "one", "one", "both", "both-rev", "missing-first", "missing-only"}
+	pathModes := []string{"one", "one", "one", "both", "both-rev", "missing-first", "multi", "multi", "missing-only"}
 	if friendly {
-		pathModes = pathModes[:6]
+		pathModes = pathModes[:8]
 	}
 	switch rapid.SampledFrom(pathModes).Draw(t, "paths") {
 	case "one":
@@ -470,6 +475,12 @@ func C12GenField(t *rapid.T, fid string, wallet []C12Cred, target int, friendly 
 		paths = []any{C12SubjectRoot(fmtOf) + ".missing.deeper", leaf.path(fmtOf)}
 	case "missing-only":
 		paths = []any{C12SubjectRoot(fmtOf) + ".missing"}
+	case "multi":
+		var cred *C12Cred
+		if target >= 0 {
+			cred = &wallet[target]
+		}
+		paths = C12GenMultiPaths(t, fid, cred, leaf, fmtOf, other, flt, friendly)
 	}
 	if rapid.IntRange(0, 9).Draw(t, "bracket") == 9 {
 		// same path in bracket notation
@@ -478,10 +489,8 @@ func C12GenField(t *rapid.T, fid string, wallet []C12Cred, target int, friendly 
 		}
 	}
 	f["path"] = paths
-	if rapid.IntRange(0, 4).Draw(t, "filter?") > 0 {
-		if flt := C12FilterFor(t, leaf.val, friendly); flt != nil {
-			f["filter"] = flt
-		}
+	if flt != nil {
+		f["filter"] = flt
 	}
 	if rapid.IntRange(0, 2).Draw(t, "id?") > 0 {
 		f["id"] = fid
@@ -502,6 +511,120 @@ func C12GenField(t *rapid.T, fid string, wallet []C12Cred, target int, friendly 
 		first = leaf.steps
 	}
 	return f, first
+}
+
+// C12GenMultiPaths draws a field with 2-3 paths whose outcomes against the target credential are constructed
+// independently per path, in every order: absent (the path selects nothing), fail (it selects a value that violates
+// the filter), pass (it selects a value that satisfies it: the leaf the field is aimed at, or another claim with the
+// same or another satisfying value). A field is fulfilled when ANY of its paths yields a satisfying value, the paths
+// are tried in order and the first satisfying one provides the extracted value; a violating value at an earlier
+// path neither ends the search nor is excused by "optional". The claims the extra paths point at are added to the
+// target credential (near-matching credentials derived later inherit them). Without a target the extra paths come
+// from the catalogue of locations. Outcomes are intent; the harness measures them with the reference (classes paths:*).
+func C12GenMultiPaths(t *rapid.T, fid string, cred *C12Cred, leaf C12Leaf, fmtOf, other string, flt map[string]any, friendly bool) []any {
+	n := rapid.SampledFrom([]int{2, 2, 3}).Draw(t, "multi.n")
+	root := C12SubjectRoot(fmtOf)
+	if cred == nil {
+		paths := []any{}
+		mainAt := rapid.IntRange(0, n-1).Draw(t, "multi.main")
+		for i := 0; i < n; i++ {
+			if i == mainAt {
+				paths = append(paths, leaf.path(fmtOf))
+				continue
+			}
+			loc := rapid.SampledFrom([]string{".name", ".role", ".level", ".active", ".tags", ".org.name", ".org", ".tags[0]", ".missing"}).Draw(t, "multi.loc")
+			paths = append(paths, rapid.SampledFrom([]string{root, C12SubjectRoot(other)}).Draw(t, "multi.root")+loc)
+		}
+		return paths
+	}
+	var rf *C12RefFilter
+	if flt != nil {
+		if raw, err := json.Marshal(flt); err == nil {
+			var parsed C12RefFilter
+			if json.Unmarshal(raw, &parsed) == nil && parsed.Type != nil {
+				rf = &parsed
+			}
+		}
+	}
+	// candidate values for the extra claims, split by what the filter says about them
+	cands := []any{"never-matches", 7.0, true, []any{"never-matches"}, []any{}, []any{"never-matches", 1.0}}
+	for _, s := range C12Strs {
+		cands = append(cands, s)
+	}
+	if arr, ok := leaf.val.([]any); ok {
+		for _, e := range arr {
+			cands = append(cands, e)
+		}
+	} else if leaf.val != nil {
+		cands = append(cands, []any{"never-matches", leaf.val})
+	}
+	var passing, failing []any
+	for _, cv := range cands {
+		if rf == nil {
+			passing = append(passing, cv)
+			continue
+		}
+		r := C12MatchFilter(rf, cv)
+		switch {
+		case r.ErrOK || r.ObjErr:
+		case r.Matched:
+			passing = append(passing, cv)
+		default:
+			failing = append(failing, cv)
+		}
+	}
+	wants := make([]string, n)
+	hasPass := false
+	for i := range wants {
+		wants[i] = rapid.SampledFrom([]string{"fail", "fail", "pass", "pass", "absent"}).Draw(t, "multi.want")
+		hasPass = hasPass || wants[i] == "pass"
+	}
+	if friendly && !hasPass {
+		// the target keeps satisfying the field: one path (usually a later one) passes
+		wants[rapid.SampledFrom([]int{n - 1, n - 1, 0}).Draw(t, "multi.passAt")] = "pass"
+	}
+	usedMain := false
+	var paths []any
+	alias := func(i int, v any) string {
+		name := fmt.Sprintf("alt_%s_%d", fid, i)
+		cred.Subject[name] = jsonmut.Clone(v)
+		return root + C12Member(name)
+	}
+	for i, w := range wants {
+		switch w {
+		case "absent":
+			otherShape := leaf.path(other)
+			if leaf.top != "" {
+				otherShape = C12SubjectRoot(other) + ".name"
+			}
+			paths = append(paths, rapid.SampledFrom([]string{root + ".missing", otherShape, root + ".missing.deeper", root + fmt.Sprintf(".alt_%s_%d[0]", fid, i)}).Draw(t, "multi.absent"))
+		case "pass":
+			if !usedMain && rapid.IntRange(0, 2).Draw(t, "multi.main?") > 0 {
+				usedMain = true
+				paths = append(paths, leaf.path(fmtOf))
+				continue
+			}
+			// another claim carrying the same value, or another value the filter accepts
+			v := leaf.val
+			if !friendly && len(passing) > 0 && rapid.Bool().Draw(t, "multi.otherpass") {
+				v = rapid.SampledFrom(passing).Draw(t, "multi.passval")
+			}
+			paths = append(paths, alias(i, v))
+		case "fail":
+			var v any
+			switch {
+			case len(failing) > 0:
+				v = rapid.SampledFrom(failing).Draw(t, "multi.failval")
+			case !friendly && rapid.IntRange(0, 3).Draw(t, "multi.failobj") == 3:
+				v = map[string]any{"name": "never-matches"}
+			default:
+				// no filter (or one that decides nothing): any present value; the first present one is extracted
+				v = rapid.SampledFrom(cands).Draw(t, "multi.otherval")
+			}
+			paths = append(paths, alias(i, v))
+		}
+	}
+	return paths
 }
 
 func C12GenReq(t *rapid.T, depth int, groups []string) map[string]any {
